@@ -21,6 +21,18 @@ CLAIMED = {
         "callbacks are functions of the node; RANDOM_ORDER/UNORDERED compared as multisets",
         "DESIGN.md §6 C06",
     ),
+    "C10": (
+        "Lean 4 theorems (parent-chain model = path specification, under unique node ids) + differential correspondence",
+        "Theorems in lean/Nutree/Properties/C10.lean: every relationship accessor, modelled as the implementation computes it (search of the parent by identity, parent-chain walks, identity index), equals its path-based specification on every tree with pairwise distinct node ids; pairs: descendant/ancestor = proper prefix, common ancestor = longest common prefix. Tie: exhaustive small-scope + random differential run (33 accessors per node, 3 per ordered pair), including ==-equal siblings.",
+        "the stored _parent links are observed through the API, not modelled as state",
+        "DESIGN.md §6 C10",
+    ),
+    "C15": (
+        "Lean 4 theorems (list lemmas: loops = filter by kind) + differential correspondence",
+        "Theorems in lean/Nutree/Properties/C15.lean: each kind-aware query, modelled as the loop in typed_tree.py, equals the untyped query applied to the child/sibling list filtered by kind; any_kind = untyped. Tie: exhaustive typed forests x all kind assignments + random differential run.",
+        "",
+        "DESIGN.md §6 C15",
+    ),
 }
 
 PENDING_REASON = "check not built yet (work in progress; see DESIGN.md §9 order of work) — will be claimed once its model, theorems and correspondence exist"
